@@ -278,6 +278,18 @@ def run(ctx: Ctx, tier: str) -> Result:
         res.ok("C20.LOAD", {"sorted by order()": True})
     else:
         res.fail(Finding("C20.LOAD", lp.qname, "<sort by order()>", lp.loc(), "loaded plugins are not sorted ascending by order()"))
+    # the plugins the agent works with are the ones loaded by this start: nothing remembered from an earlier plugin list
+    # outlives the assignment of a new one
+    from .common import stale_memo_fields
+    nmemo = 0
+    for c_ in ctx.prog.classes.values():
+        if not c_.module.name.startswith("deep.config"):
+            continue
+        nmemo += 1
+        for m2, n_, k_, f_, m_ in stale_memo_fields(ctx, c_):
+            res.fail(Finding("C20.LOAD", m2.qname, n_, m2.loc(n_), "`%s` gets a new value here but `self.%s`, which %s fills from it and consults first, is left as it is: after a "
+                             "second start the plugins of the first one (switched off or shut down since) are still the ones that are called" % (norm(n_), k_, m_.name)))
+    res.ok("C20.LOAD", {"no memo of an instance field survives its reassignment (configuration classes)": nmemo})
     from .common import borrow
     borrow(ctx, res, tier, "c19", ("C19.CHAIN",), "C20.SWITCH", "a plugin switch given in configuration resolves as documented (a falsy value is a value)")
     # every plugin hands its name and the configuration to the base constructor in their own places (the switch
